@@ -91,9 +91,31 @@ REFUSED_HINTS = {
 }
 
 
+OTHER_VERSION_LINES = {
+    # Gfa version -> (line of the other version, version to build the Line with)
+    "gfa2": [("L\tA\t+\tB\t+\t*", "gfa1"), ("C\tA\t+\tB\t+\t0\t*", "gfa1"), ("P\tp\tA+,B+\t*", "gfa1"), ("S\tC\t*", None),
+             ("S\tC\tACGT\tLN:i:4", None)],
+    "gfa1": [("E\te\tA+\tB+\t0\t1\t0\t1\t*", "gfa2"), ("G\tg\tA+\tB+\t1\t*", "gfa2"), ("O\to\tA+ B+", "gfa2"),
+             ("U\tu\tA B", "gfa2"), ("F\tA\tr+\t0\t1\t0\t1\t*", "gfa2"), ("X\tcustom\tfield", "gfa2"), ("S\tC\t10\t*", None)],
+}
+
+
 def cases(rng, tier, shard, nshards):
     nmax = NMAX_ALL[tier]
     while True:
+        if rng.random() < 0.08:
+            # a line object of the other version handed to a Gfa whose version is known, through
+            # add_line(Line) or the documented equivalent Line.connect(gfa)
+            v = rng.choice(["gfa1", "gfa2"])
+            base = {"gfa1": ["S\tA\t*", "S\tB\tACGT"], "gfa2": ["S\tA\t10\t*", "S\tB\t4\tACGT"]}[v]
+            how = rng.choice(["explicit", "content", "header"])
+            if how == "header":
+                base = ["H\tVN:Z:%s" % {"gfa1": "1.0", "gfa2": "2.0"}[v]] + base[:rng.randint(0, 2)]
+            line, lv = rng.choice(OTHER_VERSION_LINES[v])
+            yield {"mode": "object-of-other-version", "gfa_version": v, "how": how, "base": base, "line": line, "lv": lv,
+                   "way": rng.choice(["connect", "add_line"]), "vlevel": rng.choice([1, 1, 2, 3, 0]), "kind": "object",
+                   "version": None, "dialect": "standard", "entry": "api", "lines": base + [line]}
+            continue
         if rng.random() < 0.2:
             # line-by-line API: refused lines which hint at a version, among neutral lines; then
             # content of either version.  The version must follow from the ACCEPTED lines alone.
@@ -182,9 +204,44 @@ def run_incremental(case, ctx):
     ctx.sample({"lines": case["lines"], "config": "add_line, vlevel=%d" % case["vlevel"]})
 
 
+def run_object(case, ctx):
+    from ..mon import obs as O
+    kw = {"vlevel": case["vlevel"]}
+    if case["how"] == "explicit":
+        kw["version"] = case["gfa_version"]
+    r = call(ctx, "Gfa(list)", gfapy.Gfa, list(case["base"]), **kw)
+    if not r.ok or r.value.version != case["gfa_version"]:
+        return
+    g = r.value
+    lr = call(ctx, "Line(str)", gfapy.Line, case["line"], vlevel=case["vlevel"], **({"version": case["lv"]} if case["lv"] else {}))
+    if not lr.ok:
+        return
+    line = lr.value
+    before = O.obs(g)
+    rr = call(ctx, case["way"], (lambda: line.connect(g)) if case["way"] == "connect" else (lambda: g.add_line(line)))
+    ctx.count("objects_of_other_version_offered")
+    ctx.add("kinds", "object/%s/%s" % (case["way"], case["line"].split("\t")[0]))
+    ctx.nontriv([case["base"], case["line"], case["way"], case["vlevel"]])
+    rt = case["line"].split("\t")[0]
+    if rr.ok:
+        ctx.violation("mixed-accepted/object/%s/%s" % (case["way"], rt),
+                      "a %s Gfa (%s, level %d) accepted the %s line object %r through %s"
+                      % (case["gfa_version"], case["how"], case["vlevel"], case["lv"] or "other-version S", case["line"], case["way"]))
+        return
+    if rr.cls() != "VersionError" and rr.kind == "gfapy":
+        ctx.violation("conflict-wrong-class/%s/object/%s" % (rr.cls(), case["way"]),
+                      "%r offered to a %s Gfa through %s: %s instead of VersionError" % (case["line"], case["gfa_version"], case["way"], rr.cls()))
+        return
+    if O.obs(g) != before:
+        ctx.violation("state-changed-by-refused-object/%s" % case["way"], repr(case), prop="C08")
+    ctx.sample({"lines": case["lines"], "config": "%s, level %d, %s" % (case["way"], case["vlevel"], case["how"])})
+
+
 def run(case, ctx):
     if case.get("mode") == "incremental":
         return run_incremental(case, ctx)
+    if case.get("mode") == "object-of-other-version":
+        return run_object(case, ctx)
     lines = case["lines"]
     expl = case["version"]
     v, why = D.infer_version(lines, expl)
